@@ -67,7 +67,7 @@ class C01(Profile):
             rng, engines=["it", "it2"] if rng.random() < 0.5 else ["it"],
             weights={**UNARY_W, "chain": 2, "mat": 1, "xfer": 1, "leaf": 1, "run": 2, "reuse_mat": 0.6,
                      "cursor_open": 1.5, "pull": 3, "abandon": 0.4, "custom": 1.5, "process": 0.4,
-                     "flag_on_processed": 0.4},
+                     "flag_on_processed": 0.4, "redeclared_twin": 0.6},
             max_ops=16 if big else 10, udf_p=0.08, special_leaf_p=0.06, pipeline_p=0.3, flags_p=0.1, redeclare_p=0.12,
             bounds=("exact", "exact", "loose", "zeromin", "unbounded"),
         )
@@ -349,7 +349,7 @@ class C07(Profile):
 
     def gen(self, rng, tier):
         w = {**UNARY_W, "xfer": 5, "mat": 3, "chain": 1.5, "chain_empty": 1.2, "roundtrip_empty": 0.5, "roundtrip_mat": 0.3, "join": 0.6, "leaf": 1.5, "process": 5, "run": 1,
-             "mark": 1.2, "flag_on_processed": 0.8, "custom": 0.6, "marker_tower": 1.0}
+             "mark": 1.2, "flag_on_processed": 0.8, "custom": 0.6, "marker_tower": 1.0, "redeclared_twin": 0.6}
         return multi_gen(rng, tier, weights=w, flags_p=0.15, special_leaf_p=0.12, udf_p=0.06,
                          bounds=("exact", "loose", "zeromin", "unbounded"), redeclare_p=0.12)
 
@@ -419,7 +419,7 @@ class C09(Profile):
     def gen(self, rng, tier):
         big = tier == "thorough"
         w = {**UNARY_W, "xfer": 2, "mat": 1.5, "chain": 1.5, "join": 1, "leaf": 1, "process": 2, "run": 3, "rebuild": 3,
-             "twice": 2, "ill": 2, "diag": 1, "cursor_open": 0.7, "pull": 1.5, "abandon": 0.3, "attach": 0.5, "mark": 0.8, "reuse_mat": 0.6, "flag_on_processed": 0.4, "twin": 0.8}
+             "twice": 2, "ill": 2, "diag": 1, "cursor_open": 0.7, "pull": 1.5, "abandon": 0.3, "attach": 0.5, "mark": 0.8, "reuse_mat": 0.6, "flag_on_processed": 0.4, "twin": 0.8, "redeclared_twin": 0.5}
         return multi_gen(rng, tier, weights=w, flags_p=0.3, max_ops=30 if big else 14,
                          engines=rng.choice([["sql"], ["it"], ["sql", "it"], ["sql", "it", "it2"]]), named_mat=True,
                          redeclare_p=0.15)
@@ -456,7 +456,7 @@ class C10(Profile):
 
     def gen(self, rng, tier):
         w = {"calc": 2, "proj": 2, "sel": 2, "dedup": 1, "sort": 1.5, "slice": 1.5, "xfer": 3, "mat": 5, "chain": 2,
-             "chain_empty": 1.2, "roundtrip_empty": 0.4, "roundtrip_mat": 0.5, "reuse_mat": 0.8, "flag_on_processed": 0.4, "marker_tower": 0.6, "mark": 1.5, "leaf": 1, "process": 5, "run": 4, "attach": 4, "iterate": 2, "cursor_open": 0.5, "pull": 1}
+             "chain_empty": 1.2, "roundtrip_empty": 0.4, "roundtrip_mat": 0.5, "reuse_mat": 0.8, "flag_on_processed": 0.4, "marker_tower": 0.6, "redeclared_twin": 0.5, "mark": 1.5, "leaf": 1, "process": 5, "run": 4, "attach": 4, "iterate": 2, "cursor_open": 0.5, "pull": 1}
         return multi_gen(rng, tier, weights=w, flags_p=0.1, engines=rng.choice([["it"], ["sql", "it"], ["sql", "it", "it2"]]),
                          max_ops=18 if tier == "thorough" else 12, udf_p=0.1, redeclare_p=0.1)
 
